@@ -9,12 +9,12 @@ import os, subprocess, sys, tempfile, shutil, json
 
 M = [
  # name, property, file, old, new
- ("c01_pos_state_mask_hardcoded", "C01", "src/decode/lzma.rs",
+ ("c01_pos_state_mask_3_bits_only", "C01", "src/decode/lzma.rs",
   "let pos_state = output.len() & ((1 << self.lzma_props.pb) - 1);",
-  "let pos_state = output.len() & 3;"),
- ("c01_lit_state_drops_lp", "C01", "src/decode/lzma.rs",
+  "let pos_state = output.len() & ((1 << self.lzma_props.pb) - 1) & 7;"),
+ ("c01_lit_state_lp_2_bits_only", "C01", "src/decode/lzma.rs",
   "let lit_state = ((output.len() & ((1 << self.lzma_props.lp) - 1)) << self.lzma_props.lc)\n            + (prev_byte >> (8 - self.lzma_props.lc));",
-  "let lit_state = prev_byte >> (8 - self.lzma_props.lc);"),
+  "let lit_state = ((output.len() & ((1 << self.lzma_props.lp) - 1) & 3) << self.lzma_props.lc)\n            + (prev_byte >> (8 - self.lzma_props.lc));"),
  ("c01_window_wrap_never_taken", "C01", "src/decode/lzbuffer.rs",
   "            if offset == self.dict_size {\n                offset = 0\n            }",
   "            if offset > self.dict_size {\n                offset = 0\n            }"),
@@ -24,15 +24,9 @@ M = [
  ("c01_flush_at_wrong_cursor", "C01", "src/decode/lzbuffer.rs",
   "            self.stream.write_all(self.buf.as_slice())?;\n            self.cursor = 0;",
   "            self.stream.write_all(&self.buf[..self.cursor.min(self.buf.len())])?;\n            self.cursor = 0;\n            self.len += 0;"),
- ("c01_rep3_not_shifted", "C01", "src/decode/lzma.rs",
-  "                self.rep[3] = self.rep[2];\n                self.rep[2] = self.rep[1];",
-  "                self.rep[2] = self.rep[1];"),
  ("c02_reset_keeps_rep", "C02", "src/decode/lzma.rs",
   "        self.state = 0;\n        self.rep = [0; 4];\n        self.len_decoder = LenDecoder::new();\n        self.rep_len_decoder = LenDecoder::new();\n    }\n\n    pub fn set_unpacked_size",
   "        self.state = 0;\n        self.len_decoder = LenDecoder::new();\n        self.rep_len_decoder = LenDecoder::new();\n    }\n\n    pub fn set_unpacked_size"),
- ("c02_reset_keeps_rep_len_decoder", "C02", "src/decode/lzma.rs",
-  "        self.len_decoder = LenDecoder::new();\n        self.rep_len_decoder = LenDecoder::new();\n    }\n\n    pub fn set_unpacked_size",
-  "        self.len_decoder = LenDecoder::new();\n    }\n\n    pub fn set_unpacked_size"),
  ("c02_literal_table_never_reallocated", "C02", "src/decode/lzma.rs",
   "if self.lzma_props.lc + self.lzma_props.lp == new_props.lc + new_props.lp {",
   "if self.lzma_props.lc + self.lzma_props.lp >= new_props.lc + new_props.lp {"),
@@ -48,15 +42,12 @@ M = [
  ("c04_carry_not_propagated_through_ff", "C04", "src/encode/rangecoder.rs",
   "                let byte = tmp.wrapping_add((self.low >> 32) as u8);\n                self.stream.write_u8(byte)?;",
   "                let byte = if tmp == 0xFF && self.cachesz > 3 { tmp } else { tmp.wrapping_add((self.low >> 32) as u8) };\n                self.stream.write_u8(byte)?;"),
- ("c04_lzma2_chunk_buffer_one_too_large", "C04", "src/encode/lzma2.rs",
-  "let mut buf = vec![0u8; 0x10000];",
-  "let mut buf = vec![0u8; 0x10001];"),
  ("c05_max_required_input_lowered", "C05", "src/decode/lzma.rs",
   "const MAX_REQUIRED_INPUT: usize = 20;",
   "const MAX_REQUIRED_INPUT: usize = 8;"),
  ("c05_rangecoder_not_saved_after_carry_over", "C05", "src/decode/lzma.rs",
   "                rangecoder.set(tmp_rangecoder.range, tmp_rangecoder.code);",
-  "                if tmp_reader.position() > 0 {\n                    rangecoder.set(tmp_rangecoder.range, tmp_rangecoder.code);\n                }"),
+  "                let (saved_range, saved_code) = (tmp_rangecoder.range, tmp_rangecoder.code);\n                if tmp_reader.position() > 0 {\n                    rangecoder.set(saved_range, saved_code);\n                }"),
  ("c05_tmp_leftover_off_by_one", "C05", "src/decode/stream.rs",
   "                            let new_len = end - position;\n                            self.tmp.get_mut()[0..new_len as usize]\n                                .copy_from_slice(&tmp[position as usize..end as usize]);",
   "                            let new_len = (end - position).min(4);\n                            self.tmp.get_mut()[0..new_len as usize]\n                                .copy_from_slice(&tmp[position as usize..(position + new_len) as usize]);"),
@@ -102,9 +93,6 @@ M = [
  ("c11_xz_trailing_data_accepted", "C11", "src/decode/xz.rs",
   "    if !util::is_eof(input)? {\n        return Err(error::Error::XzError(\n            \"Unexpected data after last XZ block\".to_string(),",
   "    if !util::is_eof(input)? && input.fill_buf()?.len() > 3 {\n        return Err(error::Error::XzError(\n            \"Unexpected data after last XZ block\".to_string(),"),
- ("c11_lzma2_reads_one_past_end_byte", "C11", "src/decode/lzma2.rs",
-  "            if status == 0 {\n                lzma_info!(\"LZMA2 end of input\");\n                break;",
-  "            if status == 0 {\n                lzma_info!(\"LZMA2 end of input\");\n                let _ = input.read_u8();\n                break;"),
  ("c12_window_flush_error_swallowed", "C12", "src/decode/lzbuffer.rs",
   "        if self.cursor == self.dict_size {\n            self.stream.write_all(self.buf.as_slice())?;",
   "        if self.cursor == self.dict_size {\n            let _ = self.stream.write_all(self.buf.as_slice());"),
@@ -119,7 +107,7 @@ M = [
   "        input.consume(len);\n        return Ok(true);\n    }"),
  ("c13_is_eof_from_visible_buffer", "C13", "src/decode/xz.rs",
   "        let header_size = count_input.read_u8()?;",
-  "        let header_size = {\n            let b = count_input.fill_buf()?;\n            if b.len() == 1 && b[0] == 0 {\n                return Err(error::Error::XzError(\"truncated index\".to_string()));\n            }\n            count_input.read_u8()?\n        };"),
+  "        let header_size = {\n            let b = io::BufRead::fill_buf(&mut count_input)?;\n            if b.len() == 1 && b[0] == 0 {\n                return Err(error::Error::XzError(\"truncated index\".to_string()));\n            }\n            count_input.read_u8()?\n        };"),
  ("c14_reset_with_size_skips_state_reset", "C14", "src/decode/lzma.rs",
   "        self.state.reset_state(self.params.properties);\n\n        if let Some(unpacked_size) = unpacked_size {\n            self.state.set_unpacked_size(unpacked_size);\n        }",
   "        if let Some(unpacked_size) = unpacked_size {\n            self.state.set_unpacked_size(unpacked_size);\n        } else {\n            self.state.reset_state(self.params.properties);\n        }"),
